@@ -719,6 +719,44 @@ var c05Reviewed = []reviewedEntry{
 
 func normExpr(e ast.Expr) string { return types.ExprString(e) }
 
+// revEq: two rendered accesses are the same up to conversions of a value to
+// the type it already has (`string(‹string›)` is `‹string›`).
+func revEq(a, b string) bool {
+	return a == b || dropIdConv(a) == dropIdConv(b)
+}
+
+func dropIdConv(s string) string {
+	for {
+		changed := false
+		for i := 0; i < len(s); i++ {
+			if !strings.HasPrefix(s[i:], "(‹") {
+				continue
+			}
+			j := strings.Index(s[i:], "›)")
+			if j < 0 {
+				break
+			}
+			inner := s[i+len("(‹") : i+j]
+			if strings.ContainsAny(inner, "‹(") {
+				continue
+			}
+			// the type name written before the parenthesis
+			k := i
+			for k > 0 && (s[k-1] == '.' || s[k-1] == '_' || s[k-1] >= '0' && s[k-1] <= '9' || s[k-1] >= 'a' && s[k-1] <= 'z' || s[k-1] >= 'A' && s[k-1] <= 'Z') {
+				k--
+			}
+			if s[k:i] == inner && inner != "" {
+				s = s[:k] + "‹" + inner + "›" + s[i+j+len("›)"):]
+				changed = true
+				break
+			}
+		}
+		if !changed {
+			return s
+		}
+	}
+}
+
 // compileCone: functions statically reachable (through resolved static calls
 // and interface methods implemented in the lexer packages) from the machine
 // constructors. Closures are included only if called directly.
@@ -1146,13 +1184,13 @@ func scanPanicObligations(w *World, r *Report, rule string, cone map[*types.Func
 			// a reviewed access whose operands now arrive as parameters of an unexported helper with one call site
 			ep := paramInstantiatedExpr(p, fd, expr)
 			for i := range reviewed {
-				if reviewed[i].Func == name && (reviewed[i].Expr == es || reviewed[i].Expr == en || (ep != "" && reviewed[i].Expr == ep)) {
+				if reviewed[i].Func == name && (revEq(reviewed[i].Expr, es) || revEq(reviewed[i].Expr, en) || (ep != "" && revEq(reviewed[i].Expr, ep))) {
 					rev = &reviewed[i]
 				}
 			}
 			for _, on := range ownerNames {
 				for i := range reviewed {
-					if rev == nil && reviewed[i].Func == on && (reviewed[i].Expr == es || reviewed[i].Expr == en) {
+					if rev == nil && reviewed[i].Func == on && (revEq(reviewed[i].Expr, es) || revEq(reviewed[i].Expr, en)) {
 						rev = &reviewed[i]
 					}
 				}
@@ -1172,7 +1210,7 @@ func scanPanicObligations(w *World, r *Report, rule string, cone map[*types.Func
 					for _, cn := range callers {
 						var hit *reviewedEntry
 						for i := range reviewed {
-							if reviewed[i].Func == cn && reviewed[i].Requires == "" && (reviewed[i].Expr == es || reviewed[i].Expr == en) {
+							if reviewed[i].Func == cn && (revEq(reviewed[i].Expr, es) || revEq(reviewed[i].Expr, en) || (ep != "" && revEq(reviewed[i].Expr, ep))) {
 								hit = &reviewed[i]
 							}
 						}
@@ -1198,6 +1236,18 @@ func scanPanicObligations(w *World, r *Report, rule string, cone map[*types.Func
 			if rev == nil {
 				if e2, ok := alphaPairs[es]; ok {
 					rev = e2
+				}
+			}
+			// the same refusal raised from a sibling method: an explicit panic with the very value of a reviewed
+			// one, in another method of the same type, standing under a condition (the reviewed state of the type
+			// — "the stack is never empty" — is what makes either unreachable)
+			if rev == nil && kind == "explicit panic" && fd.Recv != nil && panicIsConditional(fd, expr) {
+				if dot := strings.IndexByte(name, '.'); dot > 0 {
+					for i := range reviewed {
+						if rev == nil && strings.HasPrefix(reviewed[i].Func, name[:dot+1]) && reviewed[i].Func != name && reviewed[i].Requires == "" && reviewed[i].Expr == es {
+							rev = &reviewed[i]
+						}
+					}
 				}
 			}
 			if rev == nil {
@@ -1836,4 +1886,27 @@ func countedLoop(l ssaLoop) bool {
 		}
 	}
 	return false
+}
+
+// panicIsConditional: the panic call stands inside an if statement or a case
+// clause of fd (it is not raised on every run of the function).
+func panicIsConditional(fd *ast.FuncDecl, call ast.Node) bool {
+	cond := false
+	ast.Inspect(fd.Body, func(n ast.Node) bool {
+		switch x := n.(type) {
+		case *ast.IfStmt:
+			if x.Body.Pos() <= call.Pos() && call.End() <= x.Body.End() {
+				cond = true
+			}
+			if x.Else != nil && x.Else.Pos() <= call.Pos() && call.End() <= x.Else.End() {
+				cond = true
+			}
+		case *ast.CaseClause:
+			if x.Pos() <= call.Pos() && call.End() <= x.End() {
+				cond = true
+			}
+		}
+		return true
+	})
+	return cond
 }
